@@ -64,7 +64,7 @@ class TlcResult:
 _STATE_RE = re.compile(r"^State (\d+): ", re.M)
 
 
-def run_tlc(module, cfg, env=None, workers=16, simulate=None, timeout=3600,
+def run_tlc(module, cfg, env=None, workers=16, simulate=None, timeout=1500,
             coverage=False, extra=(), heap="8g", tag=None):
     """Run TLC on spec/<module>.tla with spec/<cfg>; returns a TlcResult."""
     meta = os.path.join(workdir(), "tlc_%s_%d" % (tag or module, int(time.time() * 1000) % 10**9))
@@ -419,3 +419,80 @@ def pick_mismatch(mism, tid, l):
             pl = tla_string_payloads(p)
             return "specification computes " + (pl[-1][:1500] if pl else "")
     return ""
+
+
+def write_cfg(name, base, invs, props, extra=""):
+    p = os.path.join(workdir(), name)
+    with open(p, "w") as f:
+        f.write(base)
+        for i in invs:
+            f.write("INVARIANT %s\n" % i)
+        for q in props:
+            f.write("PROPERTY %s\n" % q)
+        f.write(extra)
+    return p
+
+
+def validate_traces(report, module, base_cfg, traces, invs, props, tag, driver, env=None):
+    """Run a trace specification over a batch of recorded traces (one TLC initial state per
+    trace).  Returns True iff every trace was accepted; the first rejection is reported as a
+    violation with the trace prefix as replay."""
+    if not traces:
+        return True
+    path = os.path.join(workdir(), "traces_%s.json" % tag)
+    with open(path, "w") as f:
+        json.dump(traces, f)
+    cfg = write_cfg("tr_%s.cfg" % tag, base_cfg, invs, props)
+    e = {"TRACE_FILE": path}
+    if env:
+        e.update(env)
+    r = run_tlc(module, cfg, env=e, workers=16, tag=tag)
+    os.unlink(path)
+    n_events = sum(len(t["events"]) for t in traces)
+    report.cov["tlc_runs"].append({"name": module, "traces": len(traces), "events": n_events,
+                                   "distinct_states": r.distinct, "wall_s": round(r.wall, 1)})
+    if r.ok:
+        if r.distinct < n_events:
+            raise MachineryError("trace spec explored %d states for %d events" % (r.distinct, n_events))
+        report.cov["traces_validated_against_impl"] += len(traces)
+        report.cov["evaluations"] += n_events
+        for t in traces:
+            for ev in t["events"]:
+                report.count_action(ev["ev"])
+        return True
+    try:
+        tid = int(r.last_state.get("tid", "0"))
+        l = int(r.last_state.get("l", "0"))
+    except ValueError:
+        raise MachineryError("cannot locate the rejected trace in TLC output:\n" + r.stdout[-2000:])
+    tr = traces[tid - 1] if 0 < tid <= len(traces) else None
+    mism = [p for p in r.prints if p.startswith('<<"MISMATCH"')]
+    detail = ""
+    if r.violated == "TraceOK":
+        l = l - 1
+        detail = pick_mismatch(mism, tid, l)
+    elif r.kind == "deadlock":
+        detail = "no action of the specification is enabled for this event"
+    elif r.kind == "invariant":
+        l = l - 1          # the invariant fails in the state reached by event l-1
+    elif r.kind == "action_property":
+        l = l - 1
+    evname = tr["events"][l - 1]["ev"] if tr and 0 < l <= len(tr["events"]) else "?"
+    evargs = {k: v for k, v in tr["events"][l - 1].items() if k != "post"} if evname != "?" else {}
+    what = "trace %d rejected at event %d %s: %s %s violated. %s" % (
+        tid, l, json.dumps(evargs)[:600], r.kind, r.violated, detail)
+    small = None
+    if tr:
+        small = dict(tr)
+        small["events"] = tr["events"][:max(l, 0)]
+    report.violation(what, {"kind": "trace", "driver": driver, "module": module, "violated": r.violated,
+                            "invs": invs, "props": props, "trace": small, "event_index": l,
+                            "signature": dict(trace_signature(small, l), violated=r.violated)})
+    return False
+
+
+def trace_signature(tr, l):
+    """Stable description of a rejected event used to match known findings."""
+    if not tr or not (0 < l <= len(tr["events"])):
+        return {}
+    return {"event": tr["events"][l - 1]["ev"]}
